@@ -295,6 +295,9 @@ func merge(c *runner.Ctx, r *probeResp) {
 	for k, n := range r.Counts {
 		c.Count(k, n)
 	}
+	for k, v := range r.Maxes {
+		c.SetMax(k, v)
+	}
 	for _, h := range r.Accepted {
 		c.Nontrivial(h)
 	}
